@@ -6,6 +6,9 @@
 set -u
 SEED=$1; WT=$2; NAME=$3; shift 3
 export CARGO_TARGET_DIR=$WT/target
+PHASE=${SEED_PHASE:-all}   # confirm | checks | all  (confirm phases of different worktrees can run in parallel)
+T=""; D1=""; D2=""
+if [ $PHASE != checks ]; then
 cd $WT || exit 2
 git checkout -q -- . && git clean -fdq -e target
 echo "== confirm in worktree"
@@ -18,6 +21,9 @@ D1=$(unshare -n bash -c "ip link set lo up; $CMD" 2>&1 | grep "^test result" | t
 git apply -R $SEED/patch.diff
 D2=$(unshare -n bash -c "ip link set lo up; $CMD" 2>&1 | grep "^test result" | tr '\n' ' '); echo "demo without patch: $D2"
 git checkout -q -- . && git clean -fdq -e target
+echo "CONFIRM $NAME suite=[$T] demo_with=[$D1] demo_without=[$D2]"
+fi
+[ $PHASE = confirm ] && exit 0
 echo "== our checks against /repo + patch"
 cd /verif
 git -C /repo apply $SEED/patch.diff || { echo "PATCH DOES NOT APPLY TO /repo"; exit 2; }
